@@ -101,6 +101,109 @@ def records_for(pw: t.Sequence[t.Tuple[int, int]], variant: int = 0):
     return out
 
 
+def answer_with_additional(qname_text: str, records, with_address: t.Sequence[int]):
+    """a real dns.resolver.Answer parsed from wire whose ADDITIONAL section carries A / AAAA records for some of the targets (what a DNS
+    server may add when it happens to know the addresses)"""
+    import dns.message
+    import dns.name
+    import dns.rdataclass
+    import dns.rdatatype
+    import dns.resolver
+    import dns.rrset
+
+    absq = qname_text if qname_text.endswith(".") else qname_text + "."
+    q = dns.message.make_query(absq, "SRV")
+    resp = dns.message.make_response(q)
+    resp.answer.append(dns.rrset.from_text_list(absq, 600, "IN", "SRV", [f"{p} {w} {port} {tg if tg.endswith('.') else tg + '.example.net.'}" for p, w, port, tg in records]))
+    for i in with_address:
+        tg = records[i][3]
+        tg = tg if tg.endswith(".") else tg + ".example.net."
+        resp.additional.append(dns.rrset.from_text_list(tg, 600, "IN", "AAAA" if i % 2 else "A", ["fd00::%d" % (i + 1) if i % 2 else "10.0.0.%d" % (i + 1)]))
+    resp = dns.message.from_wire(resp.to_wire())
+    return dns.resolver.Answer(dns.name.from_text(absq), dns.rdatatype.SRV, dns.rdataclass.IN, resp)
+
+
+def judge_additional(acc, pw, with_address) -> int:
+    import dns.asyncresolver
+    import dns.resolver
+
+    from dpapi_ng import _dns as D
+
+    recs = [(p, w, 3890 + i, f"dc{i}.example.com.") for i, (p, w) in enumerate(pw)]
+    case = ["additional", [list(x) for x in pw], list(with_address)]
+    best = min((p, -w) for p, w, _, _ in recs)
+    got = {}
+    # ONE answer object for both flavours (dnspython shuffles the records when it writes a message, so two separately built answers differ in order)
+    ans = answer_with_additional("_ldap._tcp.dc._msdcs.example.com", recs, with_address)
+    for flavour in ("sync", "async"):
+
+        async def ares(*a, ans=ans, **k):
+            return ans
+
+        try:
+            with seams.patched(dns.resolver, "resolve", lambda *a, ans=ans, **k: ans), seams.patched(dns.asyncresolver, "resolve", ares):
+                if flavour == "sync":
+                    r = D.lookup_dc("example.com")
+                else:
+                    co = D.async_lookup_dc("example.com")
+                    try:
+                        co.send(None)
+                        raise AssertionError("async_lookup_dc awaited something else than the resolver")
+                    except StopIteration as e:
+                        r = e.value
+        except Exception as e:  # noqa: BLE001
+            acc.violate(f"additional.exc.{type(e).__name__}.{flavour}", case, {"exc": repr(e)}, size=len(pw))
+            continue
+        got[flavour] = (r.target, r.port, r.weight, r.priority)
+        if (r.priority, -r.weight) != best:
+            acc.violate(f"additional.selection.{flavour}", case, {"chosen": list(got[flavour]), "best_priority_weight": [best[0], -best[1]], "records": recs, "targets_with_address_in_additional_section": [recs[i][3] for i in with_address]}, size=len(pw))
+    if len(got) == 2 and got["sync"] != got["async"]:
+        acc.violate("additional.sync-async-differ", case, got, size=len(pw))
+    return 2
+
+
+def run_overlap_lookups(acc) -> int:
+    """several async lookups in flight at once on one loop (the resolver really suspends), then again on a NEW loop of the same process"""
+    import asyncio
+
+    import dns.asyncresolver
+
+    from dpapi_ng import _dns as D
+    from mc import vloop
+
+    n = 0
+    recs = [(0, 5, 389, "dc1.example.com."), (0, 9, 389, "dc2.example.com."), (1, 100, 389, "dc3.example.com.")]
+    for round_ in range(3):
+        for k in (1, 2, 3):
+            rec = Recorder(recs)
+
+            async def ares(qname, rdtype="A", *a, rec=rec, **kw):
+                await asyncio.sleep(0)
+                await asyncio.sleep(0)
+                return rec._q(qname, rdtype, *a, **kw)
+
+            async def many(k=k):
+                return await asyncio.gather(*[D.async_lookup_dc(f"d{i}.example.com") for i in range(k)], return_exceptions=True)
+
+            case = ["overlap-lookups", round_, k]
+            with seams.patched(dns.asyncresolver, "resolve", ares):
+                try:
+                    res = vloop.run(many())
+                except Exception as e:  # noqa: BLE001
+                    acc.violate(f"overlap-lookups.exc.{type(e).__name__}", case, {"exc": repr(e)})
+                    continue
+            n += k
+            acc.nt(tuple(case))
+            for i, r in enumerate(res):
+                if isinstance(r, BaseException):
+                    acc.violate(f"overlap-lookups.exc.{type(r).__name__}", case, {"lookup": i, "exc": repr(r), "loop_round": round_})
+                elif (r.target, r.priority, r.weight) != ("dc2.example.com", 0, 9):
+                    acc.violate("overlap-lookups.selection", case, {"lookup": i, "chosen": [r.target, r.priority, r.weight]})
+                else:
+                    acc.outcome("overlap-lookup-ok")
+    return n
+
+
 def judge(acc, pw, domain, variant, history=None) -> None:
     import dns.asyncresolver
     import dns.resolver
@@ -162,6 +265,8 @@ def shards(tier: str, seed: int):
     out.append(["bigvalues"])
     out.append(["faults"])
     out.append(["envvars"])
+    out.append(["additional"])
+    out.append(["overlap-lookups"])
     for part in range(8):
         out.append(["pairs", part])
     if tier == "thorough":
@@ -277,6 +382,21 @@ def run_shard(shard, tier, seed, acc) -> None:
     # the host's own names are part of the environment: owned, so that a fallback which consults them behaves the same everywhere
     _socket.getfqdn = lambda *a: "build7.compute.internal"  # type: ignore[assignment]
     _socket.gethostname = lambda: "build7"  # type: ignore[assignment]
+    if shard[0] == "additional":
+        n = 0
+        for k in (1, 2, 3):
+            for pw in itertools.product(itertools.product(range(3), range(3)), repeat=k):
+                for m in range(1 << k):
+                    n += judge_additional(acc, pw, [i for i in range(k) if m >> i & 1])
+        acc.ev(n)
+        acc.nt_counted(n)
+        acc.sample({"additional section": "A / AAAA records for every subset of the targets", "lists": "all ordered lists of 1..3 records over priority x weight in {0,1,2}"})
+        return
+    if shard[0] == "overlap-lookups":
+        n = run_overlap_lookups(acc)
+        acc.ev(n)
+        acc.sample({"async lookups in flight at once": [1, 2, 3], "successive event loops in one process": 3})
+        return
     if shard[0] == "faults":
         # a resolver failure surfaces as an error, asks only the right name, and leaves nothing behind: later lookups are judged as usual
         n = 0
@@ -410,6 +530,12 @@ def replay(case, seed, acc) -> None:
         for key, c_, det in run_env_child(seed, ENV_PROFILES[case[1]])["violations"]:
             if c_ == case[2]:
                 acc.violate("env." + key, case, det)
+        return
+    if case[0] == "additional":
+        judge_additional(acc, [tuple(x) for x in case[1]], case[2])
+        return
+    if case[0] == "overlap-lookups":
+        run_overlap_lookups(acc)
         return
     if case[0] in ("fault", "after-fault"):
         run_shard(["faults"], "quick", seed, acc)
